@@ -42,7 +42,7 @@ func C20(c *core.Ctx) {
 		"header/value-struct/value-pointer fields from boundary ladders; distinct = distinct (keylen, version-class, relation) " +
 		"classes for keys and distinct encoded-header lengths x field boundary classes")
 	r := c.Rand("c20")
-	n := c.Pick(300000, 40000000)
+	n := c.Pick(3000000, 40000000)
 	for i := 0; i < n; i++ {
 		var k1, k2 []byte
 		switch r.Intn(4) {
@@ -114,7 +114,7 @@ func C20(c *core.Ctx) {
 			}
 		}
 	}
-	for i := 0; i < c.Pick(50000, 4000000); i++ {
+	for i := 0; i < c.Pick(300000, 4000000); i++ {
 		kl, vl, ex := uint32(r.Uint64()>>uint(r.Intn(33)+32)), uint32(r.Uint64()>>uint(r.Intn(33)+32)), r.Uint64()>>uint(r.Intn(64))
 		m, um := byte(r.Intn(256)), byte(r.Intn(256))
 		encLen, d1, n1, d2, n2, err := badger.VerifHeaderRoundTrip(kl, vl, ex, m, um)
@@ -126,7 +126,7 @@ func C20(c *core.Ctx) {
 	}
 
 	// Value structs.
-	for i := 0; i < c.Pick(50000, 4000000); i++ {
+	for i := 0; i < c.Pick(300000, 4000000); i++ {
 		vs := y.ValueStruct{Meta: byte(r.Intn(256)), UserMeta: byte(r.Intn(256)), ExpiresAt: u64[r.Intn(len(u64))], Value: gen.Bytes(r, r.Intn(40))}
 		if r.Intn(2) == 0 {
 			vs.ExpiresAt = r.Uint64() >> uint(r.Intn(64))
@@ -144,7 +144,7 @@ func C20(c *core.Ctx) {
 		c.Distinct(fmt.Sprintf("vs|explen%d|vlen%d", len(buf)-2-len(vs.Value), min(len(vs.Value), 3)))
 	}
 	// Value pointers.
-	for i := 0; i < c.Pick(50000, 4000000); i++ {
+	for i := 0; i < c.Pick(300000, 4000000); i++ {
 		p := badger.VerifVP{Fid: u32[r.Intn(len(u32))], Len: u32[r.Intn(len(u32))], Offset: u32[r.Intn(len(u32))]}
 		if r.Intn(2) == 0 {
 			p = badger.VerifVP{Fid: r.Uint32(), Len: r.Uint32(), Offset: r.Uint32()}
